@@ -3,7 +3,7 @@ from vlib import cN, cbool, clist, copt
 
 ID = "C17"
 PROPERTIES_V = ["theories/Properties/C17.v"]
-MAKE_TARGETS = ["theories/Properties/C17.vo", "theories/Model/C17Cases.vo"]
+MAKE_TARGETS = ["theories/Properties/C17.vo", "theories/Model/C17Cases.vo", "theories/Proofs/GenAgreeBlockRange.vo"]
 HARNESS = "c17"
 CASES_IMPORTS = "From Coq Require Import NArith ZArith List.\nFrom Verif Require Import Model.CertCut Model.C17Cases."
 CASE_TYPE = "case17"
@@ -176,4 +176,5 @@ LEVEL_NOTE = ("Trusted: Coq kernel + vm_compute, Flocq 4.1 binary64 operations (
               "generic in the size function and closed under the global context), the hand transcription of the four Go functions (validated by "
               "the correspondence), the harness hook flows.VerifLimitCertSize, tools/gofacts for the size constants. "
               "Stated precondition: range spans < 2^63 blocks (int overflow of NumberOfBlocks beyond; refutation theorem + replay included).")
-TECHNIQUE = "Coq proof (induction on the cut loop, list filter algebra, lia over uint64 wrap) + differential correspondence via vm_compute"
+TECHNIQUE = ("Coq proof (induction on the cut loop, list filter algebra, lia over uint64 wrap); block_range.go is TRANSLATED to Gallina on every run "
+             "(tools/go2coq -> Gen/GenBlockRange.v) and proved equal to the model; differential correspondence via vm_compute for the rest")
